@@ -83,6 +83,7 @@ impl ChainDataStore for CrashPointStore {
     }
     async fn get_highest_legacy_block_range(&self) -> mithril_common::StdResult<Option<mithril_common::entities::BlockRange>> {
         self.gate(Some(CrashPoint::BeforeLegacyRangeRoots))?;
+        self.server.lock().unwrap().served.push(crate::node::Served::LegacyRangeStep);
         self.inner.get_highest_legacy_block_range().await
     }
     async fn store_blocks_and_transactions(&self, b: Vec<mithril_common::entities::CardanoBlockWithTransactions>) -> mithril_common::StdResult<()> {
@@ -119,7 +120,9 @@ impl ChainDataStore for CrashPointStore {
     }
     async fn optimize(&self) -> mithril_common::StdResult<()> {
         self.gate(None)?;
-        ChainDataStore::optimize(&*self.inner).await
+        ChainDataStore::optimize(&*self.inner).await?;
+        self.server.lock().unwrap().served.push(crate::node::Served::Optimized);
+        Ok(())
     }
 }
 
